@@ -8042,11 +8042,22 @@ fn eval_match_cases(
 /// Discard the expression that the current stack frame was about to
 /// evaluate, as requested by `:skip`.
 ///
+/// If the value of the skipped expression is used, the enclosing
+/// expression will pop it from the value stack, so the skipped
+/// expression evaluates to Unit.
+///
 /// Returns false if this stack frame has no pending expression, so
 /// there is nothing to skip.
 pub(crate) fn skip_current_expr(env: &mut Env) -> bool {
     let stack_frame = env.current_frame_mut();
-    stack_frame.exprs_to_eval.pop().is_some()
+    let Some((_, expr)) = stack_frame.exprs_to_eval.pop() else {
+        return false;
+    };
+
+    if expr.value_is_used {
+        stack_frame.evalled_values.push(Value::unit());
+    }
+    true
 }
 
 /// Evaluate the toplevel expressions provided, and then stop. If we
